@@ -256,7 +256,8 @@ def run_impl(mode, casefile, env=None, timeout=900):
     ee = dict(os.environ)
     ee.update(e)
     with tempfile.TemporaryFile() as fo, tempfile.TemporaryFile() as fe:
-        p = subprocess.Popen([ZINOMA], env=ee, stdout=fo, stderr=fe, stdin=subprocess.DEVNULL, start_new_session=True)
+        p = subprocess.Popen([ZINOMA], env=ee, stdout=fo, stderr=fe, stdin=subprocess.DEVNULL, start_new_session=True,
+                             preexec_fn=reset_signals)
         try:
             rc = p.wait(timeout=timeout)
         except subprocess.TimeoutExpired:
